@@ -8,6 +8,7 @@ import (
 	"sync/atomic"
 	"testing"
 	"testing/synctest"
+	"time"
 
 	"github.com/bradenaw/juniper/xsync"
 	"pgregory.net/rapid"
@@ -38,6 +39,9 @@ type Round struct {
 	Late []LateW `json:"late,omitempty"`
 	// Detached: the waiters' contexts are of a hand-written type (sk.Detach)
 	Detached bool `json:"detached,omitempty"`
+	// Timed: the waiters' contexts also carry a deadline (one fake hour away); a context that is cancelled before
+	// its Wait has, by the time of the call, seen its deadline pass as well - it was cancelled, and says so
+	Timed bool `json:"timed,omitempty"`
 }
 
 type LateW struct {
@@ -52,6 +56,9 @@ type Plan struct {
 	// ByValue: the cond lives inside another struct, stored by value right after construction and before its
 	// first use (`q.cond = *xsync.NewContextCond(&q.mu)`), and is used through the address of that field
 	ByValue bool `json:"by_value,omitempty"`
+	// ReassignL: the cond is constructed with one Locker and given another (the exported field L is assigned)
+	// before its first use, as is done with sync.Cond
+	ReassignL bool `json:"reassign_l,omitempty"`
 }
 
 func genPlan(t *rapid.T) Plan {
@@ -60,6 +67,7 @@ func genPlan(t *rapid.T) Plan {
 		pl.Rounds = append(pl.Rounds, genRound(t))
 	}
 	pl.ByValue = rapid.IntRange(0, 3).Draw(t, "byvalue") == 0
+	pl.ReassignL = rapid.IntRange(0, 3).Draw(t, "reassignl") == 0
 	return pl
 }
 
@@ -77,6 +85,7 @@ func genRound(t *rapid.T) Round {
 		ops = append(ops, "enter", "enter", "enter")
 	}
 	p.Detached = rapid.IntRange(0, 4).Draw(t, "detached") == 0
+	p.Timed = rapid.IntRange(0, 4).Draw(t, "timed") == 0
 	racy := rapid.IntRange(0, 3).Draw(t, "racy") == 0
 	n := rapid.IntRange(0, 8).Draw(t, "n")
 	for i := 0; i < n; i++ {
@@ -171,6 +180,10 @@ func run(pl Plan) (out vk.Outcome, verr error) {
 			}()
 			l := &gatedLocker{owner: -1, armed: map[int]chan struct{}{}, mu: make(chan struct{}, 1)}
 			c := xsync.NewContextCond(l)
+			if pl.ReassignL {
+				c = xsync.NewContextCond(new(sync.Mutex))
+				c.L = l
+			}
 			if pl.ByValue {
 				holder := new(struct {
 					pad  [3]int
@@ -209,6 +222,9 @@ func script(l *gatedLocker, c *xsync.ContextCond, p Round, out *vk.Outcome, ever
 	start := func(i int) {
 		w := &waiter{gate: make(chan struct{}), done: make(chan struct{})}
 		w.ctx, w.cancel = sk.WithCancel(context.Background())
+		if p.Timed {
+			w.ctx, w.cancel = sk.WithTimeout(context.Background(), time.Hour)
+		}
 		if p.Detached && i%2 == 0 {
 			w.ctx = sk.Detach(w.ctx)
 		} else if p.Detached {
@@ -218,6 +234,9 @@ func script(l *gatedLocker, c *xsync.ContextCond, p Round, out *vk.Outcome, ever
 			w.cancel()
 			cancelled[i] = true
 			out.Label("context-ended-before-wait")
+			if p.Timed && i == 0 {
+				time.Sleep(2 * time.Hour) // ... and its deadline has passed, too
+			}
 		}
 		ws = append(ws, w)
 		go func() {
